@@ -106,7 +106,7 @@ def run(ctx) -> None:
             elif tag == "rand" and r < 0.14:
                 lon[k] = lat[k] = None
         hs = hops(lon, lat)
-        rpool = [None, 0, 1.0, 1e7, *(h * f for h in hs for f in (0.5, 0.999, 1.001, 2))]
+        rpool = [None, 0, 1.0, 1e7, *(h * f for h in hs for f in (0.5, 0.999, 1.0, 1.001, 2))]
         rmax = rng.choice(rpool)
         if tag == "fail-over-suspect":
             rmax = 1.0
